@@ -447,11 +447,12 @@ class Ovld:
     def add_mixins(self, *mixins):
         self._attempt_modify()
         mixins = [o for m in mixins if (o := to_ovld(m)) is not self]
+        rebuild = self._begin_update()
         for mixin in mixins:
             if self.linkback:
                 mixin.children.append(self)
         self.mixins += mixins
-        self._update()
+        self._update(rebuild)
 
     def _key_error(self, key, possibilities=None):
         typenames = sigstring(key)
@@ -506,13 +507,39 @@ class Ovld:
         except BaseException:
             # Do not leave a partially filled map in service: the next call
             # goes through the bootstrap entry and compiles again.
-            self._compiled = False
-            dispatch = getattr(self, "dispatch", None)
-            if dispatch is not None:
-                dispatch.__code__ = dispatch.__bootstrap_code__
-                dispatch.__defaults__ = None
-                dispatch.__kwdefaults__ = None
+            self._invalidate()
             raise
+
+    def _invalidate(self):
+        """Send the next call through the bootstrap entry, which compiles."""
+        self._compiled = False
+        dispatch = getattr(self, "dispatch", None)
+        if dispatch is not None:
+            dispatch.__code__ = dispatch.__bootstrap_code__
+            dispatch.__defaults__ = None
+            dispatch.__kwdefaults__ = None
+
+    def _linked(self):
+        """This ovld and everything that links back to it."""
+        yield self
+        for child in self.children:
+            yield from child._linked()
+
+    def _begin_update(self):
+        """Call right before the set of methods changes.
+
+        Everything that was built from it goes back to "compile at the next
+        call" first, so that nothing stays in service with the previous set
+        of methods if the rebuild is cut short (an invalid method, an
+        interrupt). Returns what _update has to rebuild.
+        """
+        rebuild = []
+        for ov in self._linked():
+            if ov._compiled and ov not in rebuild:
+                rebuild.append(ov)
+        for ov in rebuild:
+            ov._invalidate()
+        return rebuild
 
     def _compile(self):
         self._lock_parents()
@@ -597,9 +624,10 @@ class Ovld:
                 _set(msig, self._defns[sig])
             self._defns[sig] = fn
 
+        rebuild = self._begin_update()
         _set(sig, fn)
 
-        self._update()
+        self._update(rebuild)
         return self
 
     def unregister(self, fn):
@@ -614,26 +642,26 @@ class Ovld:
             if f is not fn:
                 key = replace(sig, tiebreak=0)
                 groups.setdefault(key, []).append((sig.tiebreak, f))
+        rebuild = self._begin_update()
         self._defns = {}
         for key, entries in groups.items():
             entries.sort(key=lambda entry: entry[0], reverse=True)
             for i, (_, f) in enumerate(entries):
                 self._defns[replace(key, tiebreak=-i)] = f
-        self._update()
+        self._update(rebuild)
 
-    def _update(self):
-        if self._compiled:
-            self.compile()
+    def _update(self, rebuild):
         failure = None
-        for child in self.children:
-            # One child that cannot be rebuilt must not keep the change
-            # from reaching the others.
+        for ov in rebuild:
+            # One function that cannot be rebuilt (this one included) must
+            # not keep the change from reaching the others.
             try:
-                child._update()
+                ov.compile()
             except Exception as exc:
                 failure = failure or exc
-        if hasattr(self, "dispatch"):
-            self.dispatch.__doc__ = self.mkdoc()
+        for ov in self._linked():
+            if hasattr(ov, "dispatch"):
+                ov.dispatch.__doc__ = ov.mkdoc()
         if failure is not None:
             raise failure
 
